@@ -30,7 +30,12 @@ else:
         ub = [unkey(k) for k in case['ub']]
     import numpy as np
     np.random.seed(0)
-    r2 = c06.ctor_build(case['kind'], na, nv, nd, ni, lb, ub)
+    lb_arg, ub_arg = lb, ub
+    if len(case['raw']) >= 11 and case['raw'][10] == 'tuple':          # the container the bounds were given in
+        lb_arg, ub_arg = tuple(lb), tuple(ub)
+    elif len(case['raw']) >= 11 and case['raw'][10] == 'array':
+        lb_arg, ub_arg = np.array(lb, dtype=float), np.array(ub, dtype=float)
+    r2 = c06.ctor_build(case['kind'], na, nv, nd, ni, lb_arg, ub_arg)
     msg = c06.ctor_oracle(case['kind'], na, nv, nd, ni, lb, ub, r2)
     res.update({'observed': r2.get('err', 'accepted'), 'recorded': case['res'].get('err', 'accepted'), 'oracle': msg, 'recorded_oracle': case.get('oracle')})
     res['fails'] = bool(msg)
